@@ -93,7 +93,7 @@ def W_single(tier):
     for k1, k2 in itertools.combinations(keys, 2):
         for v1 in fo[k1]:
             for v2 in fo[k2]:
-                for w in windows(tier == "thorough"):
+                for w in (windows(True)[::3] if tier == "thorough" else windows(False)):
                     f = {k1: v1, k2: v2}
                     f.update(w)
                     out.append(f)
